@@ -72,11 +72,62 @@ func (r *R) Ints() []int {
 		r.bad = true
 		return nil
 	}
-	out := make([]int, n)
+	out := allocInts(n)
 	for i := range out {
 		out[i] = r.Int()
 	}
 	return out
+}
+
+// ---------- aliased inputs ----------
+//
+// In aliased mode every slice argument decoded from the wire is a WINDOW of one shared backing
+// array, adjacent to the previously decoded one and with its capacity running on into its
+// neighbours — the shape of slices that came out of Chunk, Drop or s[i:j].  Pure helpers must
+// answer exactly as on independent slices; one that appends onto, or builds its result inside,
+// an argument overwrites a neighbouring argument and is exposed (stream "aliased").
+var aliasedMode bool
+var intArena []int
+var intArenaOff int
+
+func resetArenas() { intArena, intArenaOff, anyArena, anyArenaOff = nil, 0, nil, 0 }
+
+func allocInts(n int) []int {
+	if !aliasedMode {
+		return make([]int, n)
+	}
+	if intArenaOff+n > len(intArena) {
+		sz := 4096
+		if 4*n > sz {
+			sz = 4 * n
+		}
+		intArena, intArenaOff = make([]int, sz), 0
+	}
+	w := intArena[intArenaOff : intArenaOff+n]
+	intArenaOff += n
+	return w
+}
+
+var anyArena any
+var anyArenaOff int
+
+// allocWindow is allocInts for any element type (one arena per Exec call and element type).
+func allocWindow[T any](n int) []T {
+	if !aliasedMode {
+		return make([]T, n)
+	}
+	a, ok := anyArena.([]T)
+	if !ok || anyArenaOff+n > len(a) {
+		sz := 4096
+		if 4*n > sz {
+			sz = 4 * n
+		}
+		a = make([]T, sz)
+		anyArena, anyArenaOff = a, 0
+	}
+	w := a[anyArenaOff : anyArenaOff+n]
+	anyArenaOff += n
+	return w
 }
 func (r *R) Intss() [][]int {
 	n := r.Int()
